@@ -19,6 +19,21 @@ def Arr(elem, ndim=1):
     return Ty("arr", elem.kind, ndim)
 
 
+def Set():
+    """a set of integer ids: membership array int -> bool (no length)"""
+    return Ty("set", "bool", 1)
+
+
+def SetList():
+    """a Python list of sets of integer ids: array (index) -> membership array, with a length"""
+    return Ty("setlist", "bool", 2)
+
+
+def PairSet():
+    """a set of pairs of integer ids: membership array int -> int -> bool"""
+    return Ty("pairset", "bool", 2)
+
+
 def List(elem, ndim=1):
     return Ty("list", elem.kind, ndim)
 
@@ -37,7 +52,10 @@ class Contract:
                  returns=None, raises=None, call_ghost=None, gen=None, notes="", obligations_for=None,
                  assumed=None, after_loop=None, hints=None, rt_only=None, ghost_vars=None, ghost_after=None,
                  exit_hints=None, vec_counts=None, after_assign=None, abstract_mul=False, entry_hints=None,
-                 unroll=None, fields=None, fixed=None):
+                 unroll=None, fields=None, fixed=None, fragment=None):
+        # fragment: {"loop": k} verify only the k-th loop of the function (a top-level statement of its body) in
+        # isolation: `params` then declares its live-in variables; what precedes / follows the loop is not verified
+        self.fragment = fragment
         self.unroll = dict(unroll or {})        # {loop ordinal: literal trip count} (checked by an unwinding assertion)
         self.fields = dict(fields or {})        # {"obj.attr": type} attributes of object parameters read by the function
         self.fixed = dict(fixed or {})          # {param: literal} verify the function for this literal value of a parameter
@@ -53,7 +71,10 @@ class Contract:
         self.ghost_after = dict(ghost_after or {})
         self.key = key
         self.path, self.qualname = key.split("::")
-        self.name = self.qualname.split(".")[-1]
+        self.tag = ""
+        if "#" in self.qualname:        # several contracts on one function (fragments, fixed parameters)
+            self.qualname, self.tag = self.qualname.split("#", 1)
+        self.name = self.qualname.split(".")[-1] + ("#" + self.tag if self.tag else "")
         self.props = list(props)
         self.params = dict(params)
         self.param_names = list(params)
